@@ -11,7 +11,7 @@ from simlib import Rng, subseed
 HASHES = ["sha1", "sha256", "blake3", "xxhash", "crc32", "crc64"]
 
 
-def gen_history(seed, tier, cache=False, nsteps=(2, 6), multi_out_p=0.25):
+def gen_history(seed, tier, cache=False, nsteps=(2, 6), multi_out_p=0.25, tpl_p=0.25):
     rng = Rng(seed)
     spec = rs.gen_repo(rng, n_targets=(3, 10), n_pkgs=(1, 3), dep_density=0.6, use_defs_p=0.2, max_fanin=5, env_p=0.15,
                        subdir_out_p=0.3 if cache else 0.1, dir_p=0.35 if cache else 0.15, multi_out_p=multi_out_p)
@@ -19,7 +19,7 @@ def gen_history(seed, tier, cache=False, nsteps=(2, 6), multi_out_p=0.25):
     spec["config"]["xattrs"] = rng.chance(0.75)
     if cache:
         spec["config"]["cache"] = "@CACHE@"
-        spec["config"]["dircompress"] = rng.chance(0.5)
+        spec["config"]["dircompress"] = rng.chance(0.3)   # the default (hard-linked, xattrs travel with the inode) is sampled most
         spec["config"]["cache_workers"] = rng.choice([0, 0, 2])
     req = pick_request(rng, spec)
     reedit = None
@@ -37,7 +37,14 @@ def gen_history(seed, tier, cache=False, nsteps=(2, 6), multi_out_p=0.25):
     steps = []
     n = rng.rng(*nsteps)
     cur = rs.clone(spec)
-    aba = cache and rng.chance(0.6)   # tree goes A, B, A, C, A ...: restores over outputs of another state
+    if cache and rng.chance(tpl_p):
+        tpl = restore_under_template(rng, spec, states, steps)
+        if tpl:
+            cur, user = tpl
+            n = rng.rng(0, 2)
+            if req != ["//..."] and user not in req:
+                req = list(req) + [user]
+    aba = cache and rng.chance(0.4)   # tree goes A, B, A, C, A ...: restores over outputs of another state
     for i in range(n):
         r = rng.intn(100)
         if aba and i % 2 == 1 and len(states) > 1:
@@ -48,6 +55,16 @@ def gen_history(seed, tier, cache=False, nsteps=(2, 6), multi_out_p=0.25):
             continue
         if aba:
             r = 50 + rng.intn(50)    # an edit, not a deletion
+        if cache and len(states) > 1 and rng.chance(0.4):
+            # partial revert: some source files and target definitions go back to what they were in an
+            # earlier state while the rest of the tree keeps its present form, so some targets come from
+            # the cache, over outputs of another state, and their dependants have to be built
+            mixed = mixed_state(rng, cur, states[rng.intn(len(states) - 1)])
+            if mixed:
+                cur, what = mixed
+                states.append(rs.clone(cur))
+                steps.append({"kind": "edit", "desc": "revert only %s to an earlier state" % what, "state": len(states) - 1})
+                continue
         if cache and r < 15:
             steps.append({"kind": "rm-plz-out", "desc": "rm -rf plz-out", "state": len(states) - 1})
             continue
@@ -82,8 +99,85 @@ def gen_history(seed, tier, cache=False, nsteps=(2, 6), multi_out_p=0.25):
         states.append(rs.clone(cur))
         steps.append({"kind": "edit", "desc": desc, "state": len(states) - 1})
     threads = rng.choice([1, 2, 4, 8])
-    return {"states": states, "steps": steps, "req": req, "threads": threads, "seed": seed, "inplace": rng.chance(0.5),
-            "two_checkouts": bool(cache and rng.chance(0.3))}
+    h = {"states": states, "steps": steps, "req": req, "threads": threads, "seed": seed, "inplace": rng.chance(0.5),
+         "two_checkouts": bool(cache and rng.chance(0.3))}
+    rng2 = Rng(subseed(seed, "first-req"))
+    if rng2.chance(0.35):
+        # the initial build asks for one target of the closure only: the rest is first built in a later
+        # state, so after a return to state 0 part of the tree comes from the cache and part does not
+        labs = [l for l in request_closure(spec, req) if not l.startswith("//defs:")]
+        if labs:
+            h["first_req"] = [rng2.choice(sorted(labs))]
+    return h
+
+
+def restore_under_template(rng, spec, states, steps):
+    """A source file of a command target goes A -> B -> A while, together with the way back, one of
+    the target's dependants changes its own definition: the target comes back from the cache over
+    the output of state B and the dependant has to be built against it."""
+    cands = []
+    for pn, t in rs.all_targets(spec):
+        if t["kind"] != "genrule" or not [x for x in t["srcs"] if x.startswith("f:")]:
+            continue
+        lab = rs.label(pn, t["name"])
+        users = [(p2, t2) for p2, t2 in rs.all_targets(spec) if t2["kind"] == "genrule" and
+                 any(x.startswith("t:") and rs.norm_label(p2, x[2:]) == lab for x in t2["srcs"])]
+        if users:
+            cands.append((pn, t, users))
+    if not cands:
+        return None
+    pn, t, users = rng.choice(cands)
+    fn = rng.choice([x[2:] for x in t["srcs"] if x.startswith("f:")])
+    b = rs.clone(spec)
+    b["pkgs"][pn]["files"][fn] = "edited %d\n" % rng.intn(100000)
+    states.append(rs.clone(b))
+    steps.append({"kind": "edit", "desc": "edit %s/%s" % (pn, fn), "state": len(states) - 1})
+    c = rs.clone(spec)
+    up, ut = rng.choice(users)
+    for t3 in c["pkgs"][up]["targets"]:
+        if t3["name"] == ut["name"]:
+            t3["salt"] = "s%d" % rng.intn(100000)
+    states.append(rs.clone(c))
+    steps.append({"kind": "edit", "desc": "revert %s/%s and salt %s" % (pn, fn, rs.label(up, ut["name"])), "state": len(states) - 1})
+    return c, rs.label(up, ut["name"])
+
+
+def mixed_state(rng, cur, old):
+    """cur with a random non-empty proper subset of its differences from `old` undone (files and
+    definitions of targets present in both); None if there are fewer than two differences."""
+    diffs = []
+    for pn, pk in sorted(cur["pkgs"].items()):
+        if pn not in old["pkgs"]:
+            continue
+        opk = old["pkgs"][pn]
+        for fn in sorted(pk["files"]):
+            if fn in opk["files"] and opk["files"][fn] != pk["files"][fn]:
+                diffs.append(("file", pn, fn))
+        names = set(rs.label(p2, t2["name"]) for p2, t2 in rs.all_targets(cur))
+        otargets = {t["name"]: t for t in opk["targets"]}
+        for t in pk["targets"]:
+            ot = otargets.get(t["name"])
+            if ot is None or ot == t or ot["kind"] != t["kind"]:
+                continue
+            refs = [x[2:] for x in ot["srcs"] + (ot.get("data") or []) if x.startswith("t:")] + list(ot.get("deps") or []) + list(ot.get("tools") or []) + list((ot.get("provides") or {}).values())
+            if all(rs.norm_label(pn, r) in names for r in refs):
+                diffs.append(("target", pn, t["name"]))
+    if len(diffs) < 2:
+        return None
+    k = rng.rng(1, len(diffs) - 1)
+    chosen = rng.sample(diffs, k)
+    new = rs.clone(cur)
+    for (kind, pn, name) in chosen:
+        if kind == "file":
+            new["pkgs"][pn]["files"][name] = old["pkgs"][pn]["files"][name]
+        else:
+            ot = [t for t in old["pkgs"][pn]["targets"] if t["name"] == name][0]
+            ts = new["pkgs"][pn]["targets"]
+            ts[[t["name"] for t in ts].index(name)] = rs.clone(ot)
+            for x in ot["srcs"] + (ot.get("data") or []):
+                if x.startswith("f:") and x[2:] not in new["pkgs"][pn]["files"] and x[2:] in old["pkgs"][pn]["files"]:
+                    new["pkgs"][pn]["files"][x[2:]] = old["pkgs"][pn]["files"][x[2:]]
+    return new, ", ".join("%s %s/%s" % c for c in chosen[:3]) + (" ..." if len(chosen) > 3 else "")
 
 
 def resolve_cache(spec, world):
@@ -138,8 +232,10 @@ def exec_history_c01(bindir, hist, check_noop=False, c03=False):
                 if i % 2 == 1:
                     here = repo2
                     w.stats["builds_in_second_checkout"] = w.stats.get("builds_in_second_checkout", 0) + 1
-            labs = request_closure(spec, hist["req"])
-            clean = w.clean_build(spec, hist["req"], all_labels=labs if c03 else None)
+            req_i = hist["first_req"] if (i == 0 and hist.get("first_req")) else hist["req"]
+            args = ["build"] + req_i + hl.BASE_ARGS + ["-n", str(hist["threads"])]
+            labs = request_closure(spec, req_i)
+            clean = w.clean_build(spec, req_i, all_labels=labs if c03 else None)
             res, log = w.plz(args, subseed(hist["seed"], "inv%d" % i), cwd=here)
             if res.exit == simlib.EXIT_HANG:
                 out.append(("hang", "incremental build did not terminate: %s" % res.sim_fail, i))
@@ -297,7 +393,9 @@ def run_c03(bindir, hist):
 
 
 def case_c03(bindir, seed, index, tier, extra):
-    return _case(bindir, seed, index, tier, lambda s, t: gen_history(s, t), run_c03)
+    # every other case has a directory cache and histories that return to earlier states: a restore
+    # from the cache must leave the same records behind as a build (the no-op probe after it runs nothing)
+    return _case(bindir, seed, index, tier, lambda s, t: gen_history(s, t, cache=(subseed(s, "c03cache") % 2) == 0, nsteps=(2, 6), tpl_p=0.5), run_c03)
 
 
 def replay_c03(bindir, rp):
